@@ -56,4 +56,51 @@ theorem fn_loopRcHandle (s : S) (rc : Nat) :
         simp [h0, hs, this, runEffs, runEff, Gen.Fn.c__ConnectionState_MQTT_CS_CONNECTION_LOST,
           Gen.Fn.c__ConnectionState_MQTT_CS_DISCONNECTED]
 
+/-! ### `Client.disconnect` -/
+
+/-- `_send_disconnect()` on the model: encode the DISCONNECT packet and queue it (result of the queueing) -/
+def sendDisconnectM (s : S) : S × RC :=
+  match encDisconnect s.proto none none with
+  | .error _ => (s.emit (.exc "encode"), rcSuccess)
+  | .ok bytes => s.packetQueue (S.mkPkt 0xE0 0 0 bytes)
+
+/-- the steps of `disconnect()` executed on the model; the assignment of DISCONNECTING is where the model's ghost flag
+"disconnect() was called on this connection" is set -/
+def runDisc (s : S) : MEff → S
+  | .setInt "_state" v =>
+    if v = Gen.Fn.LoopRc.c__ConnectionState_MQTT_CS_DISCONNECTED then { s with cstate := .disconnected }
+    else if v = Gen.Fn.LoopRc.c__ConnectionState_MQTT_CS_DISCONNECTING then { s with cstate := .disconnecting, discCalled := true }
+    else s
+  | .call "_send_disconnect" [] => (sendDisconnectM s).1
+  | _ => s
+
+/-- **`Client.disconnect` as the source has it now = the model's `disconnect`**, for every state in which the DISCONNECT packet
+can be encoded: without a socket the state becomes DISCONNECTED and MQTT_ERR_NO_CONN is returned, nothing is queued; with a
+socket the state becomes DISCONNECTING *before* DISCONNECT is handed to `_send_disconnect()`, whose result is returned -/
+theorem fn_disconnect (s : S) (now : Int) (bytes : Bytes) (henc : encDisconnect s.proto none none = .ok bytes) :
+    ∃ rc effs, Gen.Fn.LoopRc.disconnect (sockId s.sock) now (sendDisconnectM { s with cstate := .disconnecting, discCalled := true }).2
+        = .ok (rc, effs) ∧
+      (effs.foldl runDisc s).emit (.ret rc none) = s.disconnect := by
+  unfold Gen.Fn.LoopRc.disconnect S.disconnect
+  cases hs : s.sock with
+  | none =>
+    refine ⟨4, [.setInt "_state" Gen.Fn.LoopRc.c__ConnectionState_MQTT_CS_DISCONNECTED], ?_, ?_⟩
+    · simp [sockId, pure, Except.pure, bind, Except.bind, Gen.Fn.LoopRc.c_MQTT_ERR_NO_CONN]
+    · simp [runDisc, rcNoConn, hs]
+  | some c =>
+    have e0 : ((c : Int) + 1 == 0) = false := by rw [beq_eq_false_iff_ne]; omega
+    refine ⟨(sendDisconnectM { s with cstate := .disconnecting, discCalled := true }).2,
+      [.setInt "_state" Gen.Fn.LoopRc.c__ConnectionState_MQTT_CS_DISCONNECTING, .call "_send_disconnect" []], ?_, ?_⟩
+    · simp only [sockId, e0]
+      simp [pure, Except.pure, bind, Except.bind, hs]
+    · have henc' : encDisconnect ({ s with cstate := ConnState.disconnecting, discCalled := true } : S).proto none none = .ok bytes := henc
+      simp [runDisc, sendDisconnectM, henc, henc', hs, Gen.Fn.LoopRc.c__ConnectionState_MQTT_CS_DISCONNECTING,
+        Gen.Fn.LoopRc.c__ConnectionState_MQTT_CS_DISCONNECTED]
+
+/-- the DISCONNECT packet of a plain `disconnect()` can always be encoded -/
+theorem encDisconnect_plain (proto : Nat) : ∃ bytes, encDisconnect proto none none = .ok bytes := by
+  have h0 : remLenEncChecked 0 = .ok (remLenEnc 0) := by rfl
+  unfold encDisconnect
+  by_cases h : proto = 5 <;> simp [h, h0, pure, Except.pure, bind, Except.bind]
+
 end Paho.FnEq
